@@ -147,6 +147,14 @@ func multiMembers() []multiMember {
 			orders: [][]string{{"a.json", "b.json"}, {"b.json", "a.json"}},
 			outOf:  map[string]string{"a.json": "out.go", "b.json": "out.go"}, pkgOf: map[string]string{"out.go": "example.com/pkg/model"}})
 	}
+	// two files with the same base name in different directories (the root type names collide): both root types are emitted
+	{
+		xa := &fam.FileSpec{Name: "x/s.json", ID: "https://example.com/x/s", Root: objSpec(&fam.Prop{Label: "own", Spec: &fam.Spec{Kind: "boolean"}, Required: true})}
+		yb := &fam.FileSpec{Name: "y/s.json", ID: "https://example.com/y/s", Root: objSpec(&fam.Prop{Label: "r", Spec: &fam.Spec{Kind: "integer"}, Required: true})}
+		out = append(out, multiMember{name: "two files with the same base name", cfg: base, files: []*fam.FileSpec{xa, yb},
+			orders: [][]string{{"x/s.json", "y/s.json"}},
+			outOf:  map[string]string{"x/s.json": "out.go", "y/s.json": "out.go"}, pkgOf: map[string]string{"out.go": "example.com/pkg/model"}})
+	}
 	// a whole-file reference to a sibling whose root has properties but no "type" and refers back to itself by file name
 	{
 		self := func() *fam.Spec { return &fam.Spec{RefRootOf: "node.json", Kind: "object"} }
